@@ -1,8 +1,9 @@
 CONSTANTS
+  RecordPath = TRUE
   MaxSteps = 9
   ExplicitIds = {0, 1, 2, 3, 4, 7}
   MaxChans = 7
 INIT Init
 NEXT Next
-ACTION_CONSTRAINT EmitEdge
+INVARIANT EmitPath
 CHECK_DEADLOCK FALSE
